@@ -31,6 +31,32 @@ pub struct C05Case {
     pub nsig: u8,
     pub ops: Vec<Op>,
     pub restart_probe: bool,
+    /// handlers third-party code installed before the library ever saw the signal:
+    /// (signal index, flag selection) - see `prior_flags`
+    #[serde(default)]
+    pub priors: Vec<(u8, u8)>,
+}
+
+fn prior_flags(sel: u8) -> libc::c_int {
+    match sel % 7 {
+        0 => 0,
+        1 => libc::SA_RESETHAND,
+        2 => libc::SA_NODEFER,
+        3 => libc::SA_NOCLDSTOP,
+        4 => libc::SA_RESETHAND | libc::SA_SIGINFO,
+        5 => libc::SA_RESTART,
+        _ => libc::SA_NOCLDWAIT | libc::SA_NODEFER | libc::SA_RESETHAND,
+    }
+}
+
+static PRIOR_CALLS: AtomicUsize = AtomicUsize::new(0);
+
+extern "C" fn prior1(_sig: c_int) {
+    PRIOR_CALLS.fetch_add(1, Ordering::SeqCst);
+}
+
+extern "C" fn prior3(_sig: c_int, _info: *mut libc::siginfo_t, _ctx: *mut libc::c_void) {
+    PRIOR_CALLS.fetch_add(1, Ordering::SeqCst);
 }
 
 pub fn strategy(maxlen: usize) -> BoxedStrategy<C05Case> {
@@ -40,15 +66,23 @@ pub fn strategy(maxlen: usize) -> BoxedStrategy<C05Case> {
         1 => (0u8..20).prop_map(|sig| Op::UnregisterSignal { sig }),
         5 => (0u8..20).prop_map(|sig| Op::Deliver { sig }),
     ];
-    (prop_oneof![2 => 1u8..4, 1 => 4u8..21], vec(op, 1..maxlen), prop::bool::weighted(0.3))
-        .prop_map(|(nsig, mut ops, restart_probe)| {
+    (
+        prop_oneof![2 => 1u8..4, 1 => 4u8..21],
+        vec(op, 1..maxlen),
+        prop::bool::weighted(0.3),
+        prop_oneof![2 => Just(vec![]), 1 => vec((0u8..20, 0u8..7), 1..4)],
+    )
+        .prop_map(|(nsig, mut ops, restart_probe, mut priors)| {
+            for p in priors.iter_mut() {
+                p.0 %= nsig;
+            }
             for o in ops.iter_mut() {
                 match o {
                     Op::Register { sig, .. } | Op::UnregisterSignal { sig } | Op::Deliver { sig } => *sig %= nsig,
                     _ => {}
                 }
             }
-            C05Case { nsig, ops, restart_probe }
+            C05Case { nsig, ops, restart_probe, priors }
         })
         .boxed()
 }
@@ -69,6 +103,15 @@ fn child(case: &C05Case, fd: i32) {
     crate::vsched::install();
     ignore_sigpipe();
     let handler = signal_hook_registry::verif::handler_addr();
+    for (si, sel) in &case.priors {
+        unsafe {
+            let mut sa: libc::sigaction = std::mem::zeroed();
+            let fl = prior_flags(*sel);
+            sa.sa_flags = fl;
+            sa.sa_sigaction = if fl & libc::SA_SIGINFO != 0 { prior3 as usize } else { prior1 as usize };
+            libc::sigaction(POOL[*si as usize % 20], &sa, std::ptr::null_mut());
+        }
+    }
     let mut ids: Vec<SigId> = Vec::new();
     let mut seen: HashSet<SigId> = HashSet::new();
     let mut taken: BTreeSet<c_int> = BTreeSet::new();
@@ -143,7 +186,8 @@ fn child(case: &C05Case, fd: i32) {
         if !taken.contains(s) {
             let mut cur: libc::sigaction = unsafe { std::mem::zeroed() };
             unsafe { libc::sigaction(*s, std::ptr::null(), &mut cur) };
-            if cur.sa_sigaction != libc::SIG_DFL && !(*s == libc::SIGPIPE && cur.sa_sigaction == libc::SIG_IGN) {
+            let is_prior = case.priors.iter().any(|(si, _)| POOL[*si as usize % 20] == *s) && (cur.sa_sigaction == prior1 as usize || cur.sa_sigaction == prior3 as usize);
+            if cur.sa_sigaction != libc::SIG_DFL && !(*s == libc::SIGPIPE && cur.sa_sigaction == libc::SIG_IGN) && !is_prior {
                 touched.push(*s);
             }
         }
@@ -305,6 +349,9 @@ pub fn run_case(case: &C05Case) -> CaseReport {
     if stale_unreg {
         rep.class("stale-unregister");
     }
+    if !case.priors.is_empty() {
+        rep.class("pre-existing-handlers-with-flags");
+    }
     if deliver_after_removal {
         rep.class("deliver-after-removal");
     }
@@ -326,7 +373,7 @@ pub static C05: PropDef = PropDef {
     prefixes: &["C05/"],
     rule: "forkprobe: histories (quick <=40, thorough <=200 ops) over {register, register_sigaction, unregister(live or stale id), unregister_signal, deliver (real raise)} on 1-20 catchable signals including realtime numbers; reference model = per-signal ordered list of (id, tag) + set of taken-over signals; after every step: return value equals the model's, ids never repeat, a delivery runs exactly the model's list in order, every taken-over signal keeps the library handler with SA_RESTART|SA_SIGINFO, untouched signals keep their disposition; optional directed probe: a blocking read interrupted by a handled signal restarts. Non-trivial = >=2 signals, >=1 stale unregister and a delivery after a removal; distinct = the case value",
     assumptions: &["signals are raised only once taken over by the library"],
-    cases: (500, 6000),
+    cases: (1500, 10_000),
     shrink_iters: 300,
     worker,
     replay,
